@@ -148,3 +148,48 @@ func GraphPayloads(c Cell, maxNodes int, fn func(data []byte) bool) int {
 	}
 	return count
 }
+
+// ExtraSeeds returns valid encodings of wire shapes that NO value of the generator encodes to, because the proxy's
+// encoder never produces them although its decoder accepts them: they can only come from the peer. Currently: a
+// command tree with a crossstitch "mod argument" (the wrapper modded servers use for argument types the proxy does not
+// know: parser crossstitch:mod_argument (id -256 from 1.19), then the wrapped parser's id (VarInt from 1.19, String
+// before), then a length-prefixed blob). The proxy re-encodes such a node WITHOUT the wrapper, so the generator's trees
+// can never reach brigadier.ModArgumentPropertyCodec's decoder; C05 mutates these seeds like every other seed.
+func ExtraSeeds(c Cell) []Seed {
+	if TypeName(c.Type) != "packet.AvailableCommands" {
+		return nil
+	}
+	mk := func(label string, inner func(b *bytes.Buffer), blob []byte, flags byte) Seed {
+		var b bytes.Buffer
+		_ = util.WriteVarInt(&b, 2) // two nodes
+		b.WriteByte(0x00)           // root
+		_ = util.WriteVarInt(&b, 1)
+		_ = util.WriteVarInt(&b, 1)
+		b.WriteByte(0x02 | flags) // argument node
+		_ = util.WriteVarInt(&b, 0)
+		_ = util.WriteString(&b, "modarg")
+		if c.Protocol.GreaterEqual(version.Minecraft_1_19) {
+			_ = util.WriteVarInt(&b, -256)
+		} else {
+			_ = util.WriteString(&b, "crossstitch:mod_argument")
+		}
+		inner(&b)
+		_ = util.WriteVarInt(&b, len(blob))
+		b.Write(blob)
+		if flags&0x10 != 0 {
+			_ = util.WriteString(&b, "minecraft:ask_server")
+		}
+		_ = util.WriteVarInt(&b, 0) // root index
+		return Seed{Label: "hand-made{" + label + "}", Data: append([]byte(nil), b.Bytes()...)}
+	}
+	if c.Protocol.GreaterEqual(version.Minecraft_1_19) {
+		return []Seed{
+			mk("mod-argument idx=5 blob=3", func(b *bytes.Buffer) { _ = util.WriteVarInt(b, 5) }, []byte{1, 2, 3}, 0x04),
+			mk("mod-argument idx=-3 blob=0 +suggestions", func(b *bytes.Buffer) { _ = util.WriteVarInt(b, -3) }, nil, 0x10),
+		}
+	}
+	return []Seed{
+		mk("mod-argument id=mymod:thing blob=3", func(b *bytes.Buffer) { _ = util.WriteString(b, "mymod:thing") }, []byte{1, 2, 3}, 0x04),
+		mk("mod-argument id=empty blob=0 +suggestions", func(b *bytes.Buffer) { _ = util.WriteString(b, "") }, nil, 0x10),
+	}
+}
